@@ -42,6 +42,12 @@ pub struct Plan {
     /// a class write that fails inside an attribute body is made on this thread before anything else
     #[serde(default)]
     pub poison_first: bool,
+    /// the two jars are also stored as files of the simulated directory and merged through dukebox `FileJar`s, after
+    /// the same two paths held the OTHER jar each (client and server swapped) for one call; both generations have the
+    /// same size (archive comments) and the replacement keeps the modification time - what is remembered per path must
+    /// not outlive the file (missed seeded change C13-13: FileJar::open cached per path, validated by size)
+    #[serde(default)]
+    pub file_route: bool,
 }
 
 /// One logical entry name, with what each side holds under it.
@@ -991,7 +997,8 @@ impl Engine for C13 {
             fresh
         });
 
-        let mut p = Plan { items, c_deflate: w.chance(60), s_deflate: w.chance(60), c_io: IoPlan::plain(), s_io: IoPlan::plain(), lazy: None, failed_write_first: 0, poison_first: false };
+        let mut p = Plan { items, c_deflate: w.chance(60), s_deflate: w.chance(60), c_io: IoPlan::plain(), s_io: IoPlan::plain(), lazy: None, failed_write_first: 0, poison_first: false, file_route: false };
+        p.file_route = rng.split("file-route").chance(8);
         p.poison_first = rng.split("poison-first").chance(5);
         {
             let mut fw = rng.split("failed-write-first");
@@ -1252,6 +1259,42 @@ impl Engine for C13 {
                 }
             }
         }
+        // ---------------- the jars as files behind dukebox FileJar, under paths that held the other jar before
+        if p.file_route {
+            use crate::simjar::build_jar_commented;
+            if let (Ok(ec), Ok(es)) = (open_entries(&b.c_bytes), open_entries(&b.s_bytes)) {
+                let (c0, s0) = (build_jar_commented(&ec, p.c_deflate, 0), build_jar_commented(&es, p.s_deflate, 0));
+                let (pc, ps) = (s0.len().saturating_sub(c0.len()), c0.len().saturating_sub(s0.len()));
+                // comment lengths that make all four files equally long (1 extra byte each so that both carry a comment)
+                let (c_real, s_real) = (build_jar_commented(&ec, p.c_deflate, pc + 1), build_jar_commented(&es, p.s_deflate, ps + 1));
+                if c_real.len() == s_real.len() {
+                    st.tier("T1");
+                    st.probe("file_route");
+                    st.nontrivial = true;
+                    let mut dir = crate::simdir::SimDir::new("c13");
+                    // first generation: swapped
+                    dir.create("client.jar", &s_real);
+                    dir.create("server.jar", &c_real);
+                    let open = |d: &crate::simdir::SimDir| (dukebox::storage::FileJar { path: d.join("client.jar") }, dukebox::storage::FileJar { path: d.join("server.jar") });
+                    let (cj, sj) = open(&dir);
+                    let _ = merge_and_observe(cj, sj, false, 0);
+                    dir.overwrite_keep_mtime("client.jar", &c_real);
+                    dir.overwrite_keep_mtime("server.jar", &s_real);
+                    st.events += 8;
+                    st.sched.u64(0xF11E);
+                    let (cj, sj) = open(&dir);
+                    match merge_and_observe(cj, sj, false, 0) {
+                        Outcome::Ok(o, _) => {
+                            if let Err((path, d)) = same_observation(&obs0, &o) {
+                                out.push(Violation::new("T1", "residue-after-heal", format!("file.{path}"), format!("merged through FileJars under paths that held the other jar before: {d}")));
+                            }
+                        }
+                        Outcome::Err(e, stage) => out.push(Violation::new("T1", "residue-after-heal", format!("file.{stage}.result"), format!("merge of the jars stored as files fails: {e}"))),
+                        Outcome::Panic(pm, stage) => out.push(Violation::new("T1", "panic", format!("file.{stage}:{}", panic_path(&pm)), pm)),
+                    }
+                }
+            }
+        }
         // ---------------- the entry-level seam: the same pair behind two LazyJars
         if let Some((lc, ls)) = &p.lazy {
             use crate::simjar::{LazyJar, SharedLazy};
@@ -1305,6 +1348,9 @@ impl Engine for C13 {
         }
         if p.poison_first {
             c.push(Plan { poison_first: false, ..p.clone() });
+        }
+        if p.file_route {
+            c.push(Plan { file_route: false, ..p.clone() });
         }
         if let Some((lc, ls)) = &p.lazy {
             c.push(Plan { lazy: None, ..p.clone() });
